@@ -80,7 +80,7 @@ def same_geometry_params(est, fpr, which=0):
     return None if p2 is None else (est, p2)
 
 
-OPERAND_VARIANTS = ["same", "same", "same", "reload", "hex", "file_ondisk", "zero", "handle2"]
+OPERAND_VARIANTS = ["same", "same", "same", "reload", "hex", "file_ondisk", "zero", "handle2", "handle2", "moved"]
 
 
 def second_handle(ctx, obj, kind, hname):
@@ -114,6 +114,13 @@ def operand_variant(ctx, obj, kind, mode, hname, tag):
         return new, "ondisk", [new]
     if mode == "zero":
         obj.elements_added = 0
+        return obj, kind, []
+    if mode == "moved" and kind == "ondisk" and id(obj) in PATHS and os.path.exists(PATHS[id(obj)]):
+        # the backing file is renamed while the handle stays in use (log rotation, an atomic replace of the path by another
+        # writer): the live object goes on working on its mapping, whatever now sits at the old path is not its business
+        os.rename(PATHS[id(obj)], PATHS[id(obj)] + ".moved")
+        with open(PATHS[id(obj)], "wb") as fh:
+            fh.write(b"not a filter any more")
         return obj, kind, []
     return obj, kind, []
 
